@@ -39,6 +39,9 @@ func (sa *Safe) step(fr *frame, st *State, ins ssa.Instruction) {
 			sa.storePath(st, o, "", z)
 		}
 		fr.regs[x] = AVal{Kind: avPtr, Obj: o, Path: "", NonNil: true, Type: x.Type()}
+		if isReaderType(x.Type()) {
+			sa.setBufLen(st, fr.regs[x], linConst(0))
+		}
 		if x.Heap {
 			sa.addAlloc(AllocSite{Fn: SSAFuncName(fr.fn), Pos: x.Pos(), What: "new " + elem.String(), Size: "fixed", Max: sa.w.sizeOf(elem)})
 		}
